@@ -16,6 +16,8 @@ mod model {
     #[derive(Clone, Debug, PartialEq)]
     pub enum Yaml {
         Integer(i64),
+        /// a float scalar, kept as text like yaml-rust does (`16.0`)
+        Real(String),
         String(String),
         Hash(Hash),
         BadValue,
